@@ -52,6 +52,16 @@ pub fn alphabet(slots: usize) -> Vec<Pkt> {
     let mut d = Desc::complete(L3A, 0x0033, &[0x71, 0x72]);
     d.ext_bytes = vec![];
     v.push(named("complete-unknown-mandatory-ext", d.print()));
+    // packets rejected AFTER the extension walker has already read extensions
+    let mut d = Desc::complete(L3A, 0x0101, &[0x73]);
+    d.ext_bytes = vec![0x00, 0x33];
+    v.push(named("complete-opt-then-unknown-mandatory-ext", d.print()));
+    let mut d = Desc::complete(Lbl::ReUse, 0x0101, &[0x74]);
+    d.ext_bytes = vec![0x08, 0x00];
+    v.push(named("complete-reuse-with-opt-ext", d.print()));
+    let mut d = Desc::complete(L3A, 0x0101, &[]);
+    d.ext_bytes = vec![0x02, 0x02];
+    v.push(named("complete-ext-chain-past-end", d.print()));
     v.push(named("complete-zero-label", Desc::complete(L6Z, 0x0800, &[0x81]).print()));
     v.push(named("complete-oversize", Desc::complete(Lbl::Bcast, 0x0800, &[0x91; 9]).print()));
     let mut d = Desc::complete(L6A, 0x0800, &[]);
